@@ -1,6 +1,8 @@
 ------------------------------- MODULE BuildTrace -------------------------------
 (* impl -> spec for the configuration grid of Build.tla.  One record per run of `mos build':          *)
-(*  [id, cfg, fault, exit, crashed, dirBefore, dirAfter, before, after: <<[name, sha, mtime]>>]        *)
+(*  [id, cfg, fault, exit, crashed, dirBefore, dirAfter, before, after: <<[name, sha, mtime]>>,        *)
+(*   faultFile, faultLine (where the driver put the fault), locs: <<[file, line, col]>> (every          *)
+(*   file:line:col the command printed, whatever the error style)]                                      *)
 (* Tier 1 (C04): a run whose program has a fault of a known class (malformed statement: "parse",       *)
 (*  "importparse"; undefined symbol: "codegen") exits non-zero and leaves every file as it was.         *)
 (* Tier 2 (faithfulness of Build.tla, "drift"): failures that C04 does not speak about (configuration,  *)
@@ -24,6 +26,8 @@ Judge(r) ==
     (IF r.exit = 0 THEN <<V(r.id, IF KnownClass(r.fault) THEN "violation" ELSE "drift", "", "build that must fail (" \o r.fault \o ") exited 0")>>
      ELSE IF Changed(r) # {} THEN <<V(r.id, IF KnownClass(r.fault) THEN "violation" ELSE "drift", "",
                                       "a failing build (" \o r.fault \o ") created or modified an output file under this configuration")>>
+     ELSE IF KnownClass(r.fault) /\ ~\E i \in 1..Len(r.locs) : r.locs[i].file = r.faultFile /\ r.locs[i].line = r.faultLine
+       THEN <<V(r.id, "violation", "", "no diagnostic names the file and line of the fault (error style " \o r.cfg.style \o ", started in " \o r.cfg.cwd \o ")")>>
      ELSE IF r.dirAfter # (r.dirBefore \/ DirExpected(r.cfg, r.fault)) THEN <<V(r.id, "drift", "", "target directory creation differs from the model")>>
      ELSE <<>>)
   ELSE IF r.exit # 0 THEN <<V(r.id, "drift", "", "a build the model expects to succeed failed")>>
